@@ -45,8 +45,17 @@ Asked == LET c == last'.call IN
               /\ (c.ck = "cyc" \/ (c.ck = "ext" /\ store[c.n].pw \in Pw72))
               /\ store[c.n].fmt = "bcrypt" /\ store[c.n].from # "upgrade" )
 
+\* The statement speaks of upgrading "on a successful login".  A login whose password matches but which is refused for
+\* lack of the logon/root permission is not successful; the code upgrades the credential all the same.  Both outcomes
+\* are allowed: alt is the other one (store untouched).  A real store that shows alt has left this behaviour (the
+\* harness stops following it there; it is not a difference).
+Alt == LET c == last'.call IN
+         IF /\ c.act = "Validate" /\ store' # store /\ ~last'.reply
+         THEN [on |-> TRUE, st |-> Proj]
+         ELSE [on |-> FALSE, st |-> Proj']
+
 Record == /\ Asked
-          /\ h' = Append(h, [call |-> last'.call, reply |-> last'.reply, st |-> Proj'])
+          /\ h' = Append(h, [call |-> last'.call, reply |-> last'.reply, st |-> Proj', alt |-> Alt])
           /\ spent' = spent + CostOf(last'.call)
           /\ spent' <= Budget
 
@@ -68,7 +77,7 @@ LoginRight == \E n \in Names, sp \in {s \in Spellings : Resolves(s)} :
                  store[n].on /\ ValidateWith(n, sp, "right", "")
 
 GenInit == /\ Init
-           /\ h = <<[call |-> [act |-> "Init"], reply |-> "ok", st |-> Proj]>>
+           /\ h = <<[call |-> [act |-> "Init"], reply |-> "ok", st |-> Proj, alt |-> [on |-> FALSE, st |-> Proj]]>>
            /\ spent = 0 /\ done = FALSE /\ ph = 0 /\ todo = Probes /\ w = 0
            /\ (Mode = "table" => store[TU].on)
 
